@@ -14,7 +14,9 @@
    2^k, 1/3, 1/7) and on every start vertex / direction of the vertex list; hull cases through
    Polygons::createFromDb(..)->inside, db_selhull and Db::addSelectionFromDbByConvexHull (source =
    the set, or the lattice with the set as active samples, in several sample orders; target = the
-   query points without selection and with a scattered / leading / trailing mask).
+   query points without selection and with a scattered / leading / trailing mask); polygon sets
+   also through the construction routes Polygons::createFromCSV / createFromWKT (rows emitted by
+   TLC: rings open / closed, with / without trailing separator).
 3. every answer of the library is compared with the answer expected by the specification
    (query points on a boundary are excluded, as in the property).
 """
@@ -282,6 +284,9 @@ def compare(ck, store, outs, crashes):
             else:
                 v = keep["var"][r["var"]]
                 judge(cid, keep, v["a"], r["obs"], "inside", {"z": v["z"], "nested": v["nested"]})
+                cat = ck.cov.setdefault("categories", {})
+                cat["sets_read_from_csv_file (set x file form x image)"] = cat.get("sets_read_from_csv_file (set x file form x image)", 0) + r.get("ncsv", 0)
+                cat["sets_read_from_wkt_file (set x file form x image)"] = cat.get("sets_read_from_wkt_file (set x file form x image)", 0) + r.get("nwkt", 0)
                 if "obssel" in r:
                     judge(cid, keep, v["sel"], r["obssel"], "db_polygon(flag_sel)", {"z": v["z"], "nested": v["nested"]})
     missing = set(store.cases) - seen_ids
@@ -377,7 +382,7 @@ CONSTANTS
   PoolMaxV = %(poolmaxv)d
   MaxElems = %(maxelems)d
   MinEmit = %(minemit)d
-INVARIANT Inv_SetRules Inv_Emit
+INVARIANT Inv_SetRules Inv_Files Inv_Emit
 CHECK_DEADLOCK FALSE
 """
 HULL_CFG = """SPECIFICATION Spec
@@ -505,7 +510,8 @@ def run(tier):
                  "set_points_union_2d_inside", "set_points_nested_2d_inside", "set_points_union_3d_inside",
                  "set_points_nested_3d_inside", "set_points_union_3d_inside_early_return_applies",
                  "set_points_nested_3d_inside_early_return_applies", "set_points_nested_2d_outside"] +
-            ["sets_3_elements", "hulls_triangle", "hulls_4+_vertices", "hulls_with_points_on_an_edge",
+            ["sets_3_elements", "sets_read_from_csv_file (set x file form x image)",
+             "sets_read_from_wkt_file (set x file form x image)", "hulls_triangle", "hulls_4+_vertices", "hulls_with_points_on_an_edge",
              "hulls_with_interior_points", "hull_points_inside", "hull_points_outside"])
     ck.cov["distinct_nontrivial"] = ck.cov["categories"]["polygons"] + ck.cov["categories"]["hulls"] + sum(
         v for k, v in ck.cov["categories"].items() if k.startswith("sets_"))
